@@ -100,20 +100,30 @@ def range_prov(repo: Repo, rep):
                 return bool(vals) and all(v is not None and good_atom(v, depth + 1) for v in vals)
             return False
 
-        def token_like(e, depth) -> bool:
+        def token_like(e, depth, seen=frozenset()) -> bool:
+            # decided by where the value comes from, not by what the variable is called
             t = norm(e)
             if isinstance(e, ast.Name):
-                # token variables: parameters / unpacked token ranges / results of get_tokens, next_token
-                if e.id in f.params or "token" in e.id:
-                    return True
+                if e.id in f.params or e.id in seen:
+                    return True  # a parameter (token ranges are passed in) / a loop-carried variable already being traced
                 ds = reaching_defs(cfg, nn[0], e.id)
-                return bool(ds) and all(def_value(d, e.id) is None or "token" in norm(def_value(d, e.id)) or d.kind == "for" for d in ds)
+                if not ds or depth > 6:
+                    return "token" in e.id  # closure variable / too deep: fall back to the naming convention
+                for d in ds:
+                    v = def_value(d, e.id)
+                    if v is None:
+                        continue  # unpacked from a token range / loop variable over get_tokens()
+                    if d.kind == "for":
+                        continue
+                    if not (token_like(v, depth + 1, seen | {e.id}) or ("token" in norm(v) and not isinstance(v, ast.Name))):
+                        return False
+                return True
             if isinstance(e, ast.Attribute) and e.attr in ("first_token", "last_token"):
                 return True
-            if isinstance(e, ast.Call) and ("get_tokens" in t or "next_token" in t):
+            if isinstance(e, ast.Call) and ("get_tokens" in t or "next_token" in t or "prev_token" in t):
                 return True
             if isinstance(e, ast.Subscript):
-                return token_like(e.value, depth)
+                return token_like(e.value, depth, seen)
             return False
 
         if good_atom(rng):
